@@ -67,7 +67,9 @@ type Property interface {
 type Exhaustive interface{ Exhaustive(c *Ctx) bool }
 
 // Optional: input-side tags derivable from the spec alone (used for cases that killed their child).
-type SpecTagger interface{ SpecTags(spec json.RawMessage) []string }
+type SpecTagger interface {
+	SpecTags(spec json.RawMessage) []string
+}
 
 // Optional: properties may pick their own batch size (cases per child).
 type Batcher interface{ BatchSize(c *Ctx) int }
@@ -711,6 +713,7 @@ func finish(p Property, c *Ctx, ff *FindingsFile, all []Result, start time.Time,
 	var brokenMsgs []string
 	knownHits := map[string]int{}
 	skipSamples := map[string][]string{}
+	var inconclusiveSamples []map[string]any
 	var unlisted []Result
 	sort.SliceStable(all, func(i, j int) bool { return all[i].Case < all[j].Case })
 	for i := range all {
@@ -731,6 +734,9 @@ func finish(p Property, c *Ctx, ff *FindingsFile, all []Result, start time.Time,
 			continue
 		}
 		evaluations++
+		if r.Verdict == Inconclusive && len(inconclusiveSamples) < 10 {
+			inconclusiveSamples = append(inconclusiveSamples, map[string]any{"case": r.Case, "symptom": r.Symptom, "message": head(r.Message, 1500)})
+		}
 		for k, v := range r.Counters {
 			counters[k] += v
 		}
@@ -829,18 +835,19 @@ func finish(p Property, c *Ctx, ff *FindingsFile, all []Result, start time.Time,
 		samples = append(samples, "no sample recorded")
 	}
 	cov := map[string]any{
-		"evaluations":         evaluations,
-		"distinct_nontrivial": len(distinct),
-		"rule":                p.Rule(),
-		"samples":             samples,
-		"verdicts":            verdicts,
-		"feature_tags":        tagHist,
-		"counters":            counters,
-		"distinct_traces":     len(traces),
-		"known_findings_hit":  knownHits,
-		"unlisted_violations": len(unlisted),
-		"cases_planned":       p.NumCases(c),
-		"skip_samples":        skipSamples,
+		"evaluations":          evaluations,
+		"distinct_nontrivial":  len(distinct),
+		"rule":                 p.Rule(),
+		"samples":              samples,
+		"verdicts":             verdicts,
+		"feature_tags":         tagHist,
+		"counters":             counters,
+		"distinct_traces":      len(traces),
+		"known_findings_hit":   knownHits,
+		"unlisted_violations":  len(unlisted),
+		"cases_planned":        p.NumCases(c),
+		"skip_samples":         skipSamples,
+		"inconclusive_samples": inconclusiveSamples,
 	}
 	if ex, ok := p.(Exhaustive); ok && ex.Exhaustive(c) {
 		cov["exhaustive"] = true
